@@ -183,13 +183,16 @@ pub fn run_outcome(ctx: &Ctx) -> (&'static str, Outcome) {
                 if r < 60 { Regime::Clean } else if r < 68 { Regime::Immediate } else if r < 76 { Regime::Unrestricted } else if r < 84 { Regime::CausalNoPropFirst } else if r < 92 { Regime::Roster } else { Regime::RotateRace }
             }
             _ => {
-                if r < 45 { Regime::Clean } else if r < 58 { Regime::Immediate } else if r < 72 { Regime::Roster } else if r < 82 { Regime::Unrestricted } else if r < 90 { Regime::CausalNoPropFirst } else { Regime::RotateRace }
+                if r < 40 { Regime::Clean } else if r < 52 { Regime::Immediate } else if r < 66 { Regime::Roster } else if r < 76 { Regime::Unrestricted } else if r < 84 { Regime::CausalNoPropFirst } else if r < 92 { Regime::RotateRace } else { Regime::Restart }
             }
         };
         let sqlite_pct = if i % 12 == 0 || (thorough && i % 5 == 0) { 60 } else { 0 };
         let mut sim = regime_cfg(regime, rng, sqlite_pct);
         if prop == "C08" {
             sim.second_group = rng.chance(40);
+        }
+        if prop == "C20" {
+            sim.retention = *rng.pick(&[0usize, 1, 2, 3, 4, 5, 5, 6]);
         }
         if prop == "C18" {
             sim.w_msg = 40;
